@@ -26,6 +26,8 @@ type SpecEnv struct {
 	calleeMode bool
 	assigned   []string
 	qn         *int
+	guard      []Term // antecedents in force (assume polarity), for lazily instantiated universals
+	lazyOK     bool   // forallref may be registered as a lazy universal / skolemised
 	pol        int // +1: formula will be proved, -1: formula will be assumed, 0: unknown polarity
 }
 
@@ -52,12 +54,14 @@ func (e *SpecEnv) nopol() *SpecEnv {
 func (e *SpecEnv) evalAssume(x ast.Expr) Term {
 	n := *e
 	n.pol = -1
+	n.lazyOK = e.ex.opts["lazy"] != "off"
 	return n.evalBool(x)
 }
 
 func (e *SpecEnv) evalProve(x ast.Expr) Term {
 	n := *e
 	n.pol = +1
+	n.lazyOK = e.ex.opts["lazy"] != "off"
 	return n.evalBool(x)
 }
 
@@ -561,7 +565,9 @@ func (e *SpecEnv) callExpr(n *ast.CallExpr) Value {
 		if a.IsFalse() {
 			return BoolV{T: True} // guarded expression is not evaluated
 		}
-		return BoolV{T: Implies(a, e.evalBool(arg(1)))}
+		sub := *e
+		sub.guard = append(append([]Term{}, e.guard...), a)
+		return BoolV{T: Implies(a, sub.evalBool(arg(1)))}
 	case "iff":
 		return BoolV{T: Eq(e.nopol().evalBool(arg(0)), e.nopol().evalBool(arg(1)))}
 	case "ite":
@@ -687,8 +693,70 @@ func (e *SpecEnv) callExpr(n *ast.CallExpr) Value {
 			res = Ite(c, IntC(i), res)
 		}
 		return IntV{T: res, W: 64, Signed: true}
+	case "reveal":
+		// reveal(o): instantiate the lazily kept universals at o
+		r := e.refTerm(e.eval(arg(0)), n)
+		e.cur.instantiateAt(ex, r)
+		return BoolV{T: True}
 	case "forallref", "existsref":
 		name := arg(0).(*ast.Ident).Name
+		if fname == "forallref" && e.lazyOK && e.pol < 0 && e.cur.collect == nil {
+			// assumed universal over objects: keep it lazily (see lazyU)
+			lazyCounter++
+			snapCur := e.cur.clone()
+			snapOld := snapCur
+			if e.old != nil && e.old != e.cur {
+				snapOld = e.old.clone()
+			}
+			envc := *e
+			envc.cur, envc.old = snapCur, snapOld
+			envc.guard = nil
+			envc.lazyOK = false
+			lu := &lazyU{id: lazyCounter, name: name, body: arg(1), env: &envc, guard: And(e.guard...)}
+			e.cur.lazy = append(e.cur.lazy[:len(e.cur.lazy):len(e.cur.lazy)], lu)
+			return BoolV{T: True}
+		}
+		if fname == "forallref" && e.lazyOK && e.pol > 0 && e.cur.collect == nil {
+			// goal: forall o. G(o) is proved by cases: o is one of the objects the path has
+			// written (or that a callee's frame lists), or it is none of them. In the first case
+			// G is evaluated at that very term; in the second at a skolem constant under the
+			// disequalities, so that heap reads simplify to the pre-state syntactically.
+			touched := e.cur.touchedObjects(ex)
+			var parts []Term
+			for _, x := range touched {
+				xt := Term{x, SRef}
+				e.cur.instantiateAt(ex, xt)
+				part := e.bind(name, RefV{T: xt}).evalBool(arg(1))
+				lbl := x
+				if len(lbl) > 40 {
+					lbl = fmt.Sprintf("obj#%d", len(parts)+1)
+				}
+				ex.caseLabels[part.S] = name + "=" + lbl
+				parts = append(parts, part)
+			}
+			sk := ex.st.Fresh("sk."+name, SRef)
+			e.cur.instantiateAt(ex, sk)
+			other := e.cur.clone()
+			other.lazy, other.lazyDone = e.cur.lazy, e.cur.lazyDone
+			var neqs []Term
+			for _, x := range touched {
+				neqs = append(neqs, Neq(sk, Term{x, SRef}))
+			}
+			base := len(other.pc)
+			other.assume(And(neqs...))
+			sub := e.bind(name, RefV{T: sk})
+			sub.cur = other
+			if e.old == e.cur {
+				sub.old = other
+			}
+			g := sub.evalBool(arg(1))
+			// facts learnt while evaluating in the side state hold under the disequalities
+			hyp := And(other.pc[base:]...)
+			oth := Implies(hyp, g)
+			ex.caseLabels[oth.S] = name + "=other"
+			parts = append(parts, oth)
+			return BoolV{T: And(parts...)}
+		}
 		quantCounter++
 		v := Term{fmt.Sprintf("q!%s!%d", name, quantCounter), SRef}
 		var side []Term
@@ -753,9 +821,39 @@ func (e *SpecEnv) callExpr(n *ast.CallExpr) Value {
 	case "pooled":
 		r := e.refTerm(e.eval(arg(0)), n)
 		return BoolV{T: Select(e.cur.H(ex, "pooled", ArrSort(SRef, SBool)), r)}
+	case "pooledIs":
+		// pooledIs(n, c): the ghost set of pooled nodes is the old set, plus n if c holds
+		nT := e.refTerm(e.eval(arg(0)), n)
+		c := e.nopol().evalBool(arg(1))
+		before := e.old.H(ex, "pooled", ArrSort(SRef, SBool))
+		after := e.cur.H(ex, "pooled", ArrSort(SRef, SBool))
+		return BoolV{T: Eq(after, Ite(c, Store(before, nT, True), before))}
+	case "calls":
+		// calls("suffix"): number of (inlined) calls on this path to functions whose name ends with suffix
+		suffix := strings.Trim(exprString(arg(0)), "\"")
+		if bl, ok := arg(0).(*ast.BasicLit); ok {
+			suffix = strings.Trim(bl.Value, "\"")
+		}
+		total := int64(0)
+		for k, v := range e.cur.ghost {
+			if strings.HasPrefix(k, "calls.") && strings.HasSuffix(k, suffix) {
+				if c, ok := v.(IntV).T.IntConst(); ok {
+					total += c.Int64()
+				}
+			}
+		}
+		return IntV{T: IntC(total), W: 64, Signed: true}
 	case "atype":
 		r := e.refTerm(e.eval(arg(0)), n)
-		return IntV{T: Select(e.cur.H(ex, "atype", ArrSort(SRef, SInt)), r), W: 64, Signed: true}
+		return IntV{T: atypeOf(ex.st, r), W: 64, Signed: true}
+	case "blen": // extent (in bytes) of a byte object
+		r := e.refTerm(e.eval(arg(0)), n)
+		return IntV{T: Select(e.cur.H(ex, "blen", ArrSort(SRef, SInt)), r), W: 64, Signed: true}
+	case "inT":
+		r := e.refTerm(e.eval(arg(0)), n)
+		return BoolV{T: inTOf(ex.st, r)}
+	case "leafT":
+		return IntV{T: ex.st.Const("leafT", SInt), W: 64, Signed: true}
 	case "typeid":
 		name := arg(0).(*ast.Ident).Name
 		l := ex.layoutByName(name)
@@ -778,6 +876,25 @@ func (e *SpecEnv) callExpr(n *ast.CallExpr) Value {
 			objs = append(objs, e.refTerm(e.eval(a), n))
 		}
 		return BoolV{T: e.frame(objs)}
+	case "frameExcept":
+		// frameExcept("A", ...): frame() for every heap array except the named ones
+		skip := map[string]bool{}
+		for _, a := range n.Args {
+			if bl, ok := a.(*ast.BasicLit); ok {
+				skip[strings.Trim(bl.Value, "\"")] = true
+			}
+		}
+		saved := e.assigned
+		var names []string
+		for h := range ex.heapSorts {
+			if !skip[h] {
+				names = append(names, h)
+			}
+		}
+		e2 := *e
+		e2.assigned = names
+		_ = saved
+		return BoolV{T: e2.frame(nil)}
 	case "frameSlot":
 		// frameSlot(p): in the object holding slot *p nothing but that slot changed
 		pv, ok := e.eval(arg(0)).(PtrV)
